@@ -19,11 +19,14 @@ Record Num : Type := mkNum {
   nleb : carrier -> carrier -> bool;
   neqb : carrier -> carrier -> bool;
   nofZ : Z -> carrier;
+  nrem1 : carrier -> carrier;      (* x % 1.0 with the sign of x (C fmod, Rust's % on f64) *)
+  nsqrt : carrier -> carrier;
+  nceilZ : carrier -> Z;           (* x.ceil() as i64 *)
 }.
 
 Arguments nadd {_}. Arguments nsub {_}. Arguments nmul {_}. Arguments ndiv {_}.
 Arguments nopp {_}. Arguments nltb {_}. Arguments nleb {_}. Arguments neqb {_}.
-Arguments nofZ {_}.
+Arguments nofZ {_}. Arguments nrem1 {_}. Arguments nsqrt {_}. Arguments nceilZ {_}.
 
 Declare Scope num_scope.
 Delimit Scope num_scope with num.
@@ -53,6 +56,47 @@ Definition float_ofZ (z : Z) : float :=
   | Zneg p => PrimFloat.opp (float_ofpos p)
   end.
 
+(* fmod(x, 1.0) on binary64, exactly: below 2^52 the nearest integer of |x| is (|x| + 2^52) - 2^52
+   (ulp = 1 there), the floor is that or one less, and |x| - floor |x| is exact; from 2^52 on every
+   value is an integer.  The result carries the sign of x, also when it is zero. *)
+Definition two52 : float := 0x1p52%float.
+Definition fsignbit (x : float) : bool :=
+  orb (PrimFloat.ltb x 0%float) (andb (PrimFloat.eqb x 0%float) (PrimFloat.ltb (1 / x)%float 0%float)).
+Definition ffmod1 (x : float) : float :=
+  let a := PrimFloat.abs x in
+  if PrimFloat.ltb a two52 then
+    let t := ((a + two52) - two52)%float in
+    let fl := if PrimFloat.ltb a t then (t - 1)%float else t in
+    let r := (a - fl)%float in
+    if fsignbit x then PrimFloat.opp r else r
+  else if PrimFloat.ltb a infinity then (if fsignbit x then (-0)%float else 0%float)
+  else nan.
+
+(* x.ceil() as i64 (Rust: NaN -> 0, saturating at the ends of the i64 range), by bisection on the
+   monotone map float_ofZ - no primitive integers and no float decoding are needed *)
+Definition i64_max : Z := 9223372036854775807.
+Definition i64_min : Z := (-9223372036854775808)%Z.
+
+(* smallest n in [lo, hi] with p n (p monotone, p hi assumed; hi otherwise) *)
+Fixpoint bsearch (fuel : nat) (lo hi : Z) (p : Z -> bool) : Z :=
+  match fuel with
+  | O => hi
+  | S f =>
+      if (hi <=? lo)%Z then hi
+      else let mid := ((lo + hi) / 2)%Z in
+           if p mid then bsearch f lo mid p else bsearch f (mid + 1) hi p
+  end.
+
+Definition fceilZ (x : float) : Z :=
+  if PrimFloat.eqb x x then
+    if PrimFloat.ltb 0%float x then
+      bsearch 70 0 i64_max (fun n => PrimFloat.leb x (float_ofZ n))
+    else
+      (* x <= 0: ceil x = - floor (-x) = - (smallest n with -x < n + 1) *)
+      let y := PrimFloat.opp x in
+      Z.opp (bsearch 70 0 i64_max (fun n => PrimFloat.ltb y (float_ofZ (n + 1))))
+  else 0%Z.
+
 Definition NumF : Num := {|
   carrier := float;
   nadd := PrimFloat.add; nsub := PrimFloat.sub;
@@ -60,6 +104,9 @@ Definition NumF : Num := {|
   nopp := PrimFloat.opp;
   nltb := PrimFloat.ltb; nleb := PrimFloat.leb; neqb := PrimFloat.eqb;
   nofZ := float_ofZ;
+  nrem1 := ffmod1;
+  nsqrt := PrimFloat.sqrt;
+  nceilZ := fceilZ;
 |}.
 
 Section Derived.
